@@ -87,6 +87,10 @@ typedef struct sim_globals {
     int nT, cur;
     uint64_t steps, switches, now, jumps, ctx_switches;
     uint64_t last_progress;
+    /* variant VP: scheduling points at plain (non-atomic) loads and stores of the library */
+    uint64_t plain_rng, plain_points;
+    int64_t plain_countdown;
+    uint32_t plain_mean;
     uint64_t fp, sig;
     int last_site;
     uint64_t fired[SIM_F_N];
